@@ -25,8 +25,11 @@ def parse_hex_string(buffer):
         except StopIteration:
             raise ValueError("Invalid hex string: uneven amount of digits.")
 
-        # parse
-        yield int(high_nibble + low_nibble, 16)
+        # parse (int() alone would also take signs, "0x" or underscores)
+        pair = high_nibble + low_nibble
+        if not all(digit in b"0123456789abcdefABCDEF" for digit in pair):
+            raise ValueError(f"Invalid hex string: {pair} is not a pair of hex digits.")
+        yield int(pair, 16)
 
         high_nibble = b""
         low_nibble = b""
